@@ -1,7 +1,104 @@
 import Driver.Util
-/-! Suite C01: line-protocol handlers (stub — replaced when the property's model is built). -/
+import LoraVerif.Model.Aes
+import LoraVerif.Model.Codec
+import LoraVerif.Spec.LoRaWAN
+import LoraVerif.Spec.LoRaWANBridge
+/-! Suite C01: frame builders. Model = `Codec.*.buildInto` (transliteration of creator.rs), spec =
+`Spec.encode*` on `toSpec` of the same description, both instantiated with the Lean AES. -/
+open Lora
 namespace Driver.C01
 
-def handle (_ws : List String) : String := "bad-op"
+def showOutcome : Outcome Bytes → String
+  | .ok b => if b.isEmpty then "-" else hexOfBytes b
+  | .err e => "ERR:" ++ e.name
+  | .panic => "PANIC"
+
+def showExcept : Except Err Bytes → String
+  | .ok b => if b.isEmpty then "-" else hexOfBytes b
+  | .error e => "ERR:" ++ e.name
+
+def vec? (n : Nat) (s : String) : Option (Vector UInt8 n) :=
+  match bytesOfHex? s with
+  | some l => if h : l.length = n then some ⟨l.toArray, by simpa using h⟩ else none
+  | none => none
+
+def key? (s : String) : Option Key := vec? 16 s
+
+def optKey? (s : String) : Option (Option Key) :=
+  if s = "-" then some none else (key? s).map some
+
+def ftype? : String → Option FType
+  | "0" => some .unconfirmedUp | "1" => some .unconfirmedDown | "2" => some .confirmedUp | "3" => some .confirmedDown
+  | _ => none
+
+def payload? (port : String) (bytes : Bytes) : Option Codec.Payload :=
+  if port = "-" then some .none
+  else match port.toNat? with
+    | some 0 => some (.macCommands bytes)
+    | some n =>
+      if h : n < 256 ∧ (UInt8.ofNat n) ≠ 0 then some (.data (UInt8.ofNat n) h.2 bytes) else none
+    | none => none
+
+def cflist? (s : String) : Option (Option Codec.CfList) :=
+  if s = "-" then some none
+  else if s.startsWith "D" then
+    match bytesOfHex? (s.drop 1).toString with
+    | some l =>
+      match vec? 3 (hexOfBytes (l.take 3)), vec? 3 (hexOfBytes ((l.drop 3).take 3)), vec? 3 (hexOfBytes ((l.drop 6).take 3)),
+            vec? 3 (hexOfBytes ((l.drop 9).take 3)), vec? 3 (hexOfBytes ((l.drop 12).take 3)) with
+      | some a, some b, some c, some d, some e => if l.length = 15 then some (some (.dynamicChannel #v[a, b, c, d, e])) else none
+      | _, _, _, _, _ => none
+    | none => none
+  else if s.startsWith "F" then (vec? 9 (s.drop 1).toString).map fun m => some (.fixedChannel m)
+  else none
+
+def fillBuf (n : String) (fill : String) : Option Bytes :=
+  match n.toNat?, bytesOfHex? fill with
+  | some n, some [f] => some (List.replicate n f)
+  | _, _ => none
+
+def handle (ws : List String) : String :=
+  match ws with
+  | ["data", ft, addr, flags, fcnt, fopts, port, pld, nwk, app, buflen, fill, _variant] =>
+    match ftype? ft, vec? 4 addr, flags.toNat?, fcnt.toNat?, bytesOfHex? fopts, bytesOfHex? pld, key? nwk, optKey? app,
+          fillBuf buflen fill with
+    | some ft, some addr, some fl, some fcnt, some fopts, some pld, some nwk, some app, some buf =>
+      match payload? port pld with
+      | some payload =>
+        let d : Codec.DataFrame :=
+          { frameType := ft, devAddr := addr, adr := fl &&& 8 ≠ 0, adrAckReq := fl &&& 4 ≠ 0, ack := fl &&& 2 ≠ 0,
+            fPending := fl &&& 1 ≠ 0, fcnt := UInt32.ofNat fcnt, fOpts := fopts, payload := payload }
+        let m := d.buildInto aes buf nwk app
+        let s := Spec.encodeData aes nwk app d.toSpec buf.length
+        s!"{showOutcome m}|{showExcept s}"
+      | none => "bad-op"
+    | _, _, _, _, _, _, _, _, _ => "bad-op"
+  | ["jr", jeui, deui, nonce, key, buflen, fill, _variant] =>
+    match vec? 8 jeui, vec? 8 deui, vec? 2 nonce, key? key, fillBuf buflen fill with
+    | some j, some d, some n, some k, some buf =>
+      let jr : Codec.JoinRequest := { joinEui := j, devEui := d, devNonce := n }
+      s!"{showOutcome (jr.buildInto buf ⟨aes, k⟩)}|{showExcept (Spec.encodeJoinRequest aes k jr.toSpec buf.length)}"
+    | _, _, _, _, _ => "bad-op"
+  | ["ja", jn, nid, addr, dl, rxd, cfl, key, buflen, fill] =>
+    match vec? 3 jn, vec? 3 nid, vec? 4 addr, bytesOfHex? dl, rxd.toNat?, cflist? cfl, key? key, fillBuf buflen fill with
+    | some jn, some nid, some addr, some [dl], some rxd, some cfl, some k, some buf =>
+      let ja : Codec.JoinAccept := { joinNonce := jn, netId := nid, devAddr := addr, dlSettings := dl,
+                                     rxDelay := UInt8.ofNat rxd, cFList := cfl }
+      s!"{showOutcome (ja.buildInto buf ⟨aes, k⟩)}|{showExcept (Spec.encodeJoinAccept aes k ja.toSpec buf.length)}"
+    | _, _, _, _, _, _, _, _ => "bad-op"
+  -- the Lean AES against the `aes` / `cmac` crates (no second specification: the KATs are in Props/C01)
+  | ["aes_enc", k, b] =>
+    match key? k, key? b with
+    | some k, some b => s!"{hexOfBytes (Aes.encrypt k b).toList}|-"
+    | _, _ => "bad-op"
+  | ["aes_dec", k, b] =>
+    match key? k, key? b with
+    | some k, some b => s!"{hexOfBytes (Aes.decrypt k b).toList}|-"
+    | _, _ => "bad-op"
+  | ["cmac", k, m] =>
+    match key? k, bytesOfHex? m with
+    | some k, some m => s!"{hexOfBytes (Aes.cmac k m).toList}|-"
+    | _, _ => "bad-op"
+  | _ => "bad-op"
 
 end Driver.C01
